@@ -973,8 +973,12 @@ func (w *cWalker) switchStmt(s *ast.SwitchStmt, st *cState) []*cState {
 			for _, cs := range s.Body.List {
 				cc := cs.(*ast.CaseClause)
 				if cc.List == nil {
+					label := "default"
+					if rem, ok := w.m.enumRemaining(s, tv.v); ok && len(rem) == 1 {
+						label = "case " + rem[0] // the default stands for the single remaining enum value
+					}
 					for _, y := range rest {
-						w.tr(y, "default")
+						w.tr(y, label)
 					}
 					out = append(out, w.stmts(cc.Body, rest)...)
 					handled = true
@@ -2226,10 +2230,16 @@ func (m *compModel) lvalueTypes() map[string]bool {
 // enumExhaustive: the switch lists every value its tag can take (all constants of the tag's named
 // type, or the restricted domain of a tabled producer), so there is no fall-through path.
 func (m *compModel) enumExhaustive(s *ast.SwitchStmt, tag cVal) bool {
+	rem, ok := m.enumRemaining(s, tag)
+	return ok && len(rem) == 0
+}
+
+// enumRemaining: the values of a small closed enum tag that no case lists (ok=false when the tag is not such an enum).
+func (m *compModel) enumRemaining(s *ast.SwitchStmt, tag cVal) ([]string, bool) {
 	t := m.info.TypeOf(s.Tag)
 	n, ok := t.(*types.Named)
 	if !ok || n.Obj().Pkg() == nil || !strings.HasPrefix(n.Obj().Pkg().Path(), modPath) {
-		return false
+		return nil, false
 	}
 	domain := map[int64]string{}
 	sc := n.Obj().Pkg().Scope()
@@ -2249,7 +2259,7 @@ func (m *compModel) enumExhaustive(s *ast.SwitchStmt, tag cVal) bool {
 		}
 	}
 	if len(domain) == 0 || len(domain) > 8 {
-		return false // only small closed enums (Scope); token/opcode enums are open-ended here
+		return nil, false // only small closed enums (Scope); token/opcode enums are open-ended here
 	}
 	for _, cs := range s.Body.List {
 		for _, e := range cs.(*ast.CaseClause).List {
@@ -2258,7 +2268,12 @@ func (m *compModel) enumExhaustive(s *ast.SwitchStmt, tag cVal) bool {
 			}
 		}
 	}
-	return len(domain) == 0
+	var rem []string
+	for _, nm := range domain {
+		rem = append(rem, n.Obj().Pkg().Name()+"."+nm)
+	}
+	sort.Strings(rem)
+	return rem, true
 }
 
 func constantInt(k *types.Const) (int64, bool) {
